@@ -23,6 +23,7 @@ import (
 	"pgregory.net/rapid"
 
 	"verif/internal/cat"
+	"verif/internal/compose"
 	"verif/internal/ev"
 	"verif/internal/memfs"
 	"verif/internal/run"
@@ -32,17 +33,19 @@ const prop = "C09"
 
 // Case describes one concurrent execution.
 type Case struct {
-	Prog    string   `json:"prog"`
-	Second  string   `json:"second,omitempty"` // a second program rendered concurrently on its own engine (shared globals)
-	N       int      `json:"n"`                // goroutines per program
-	Reps    int      `json:"reps"`
-	Entries []string `json:"entries"`
-	Warm    bool     `json:"warm,omitempty"`     // render once before the concurrent phase
-	Shared  bool     `json:"shared,omitempty"`   // goroutines share one read-only data map
-	Unique  bool     `json:"unique,omitempty"`   // string entries get a per-goroutine unique path + expression
-	Writer  string   `json:"writer,omitempty"`   // file rewritten (content A/B, new mtime) during the run
-	Procs   int      `json:"procs,omitempty"`    // GOMAXPROCS
-	BaseTpl bool     `json:"base_tpl,omitempty"` // all goroutines use the single base template (Load/New from it)
+	// Gen, when set, is a generated composition program rendered instead of catalogue program Prog.
+	Gen     *compose.Case `json:"gen,omitempty"`
+	Prog    string        `json:"prog"`
+	Second  string        `json:"second,omitempty"` // a second program rendered concurrently on its own engine (shared globals)
+	N       int           `json:"n"`                // goroutines per program
+	Reps    int           `json:"reps"`
+	Entries []string      `json:"entries"`
+	Warm    bool          `json:"warm,omitempty"`     // render once before the concurrent phase
+	Shared  bool          `json:"shared,omitempty"`   // goroutines share one read-only data map
+	Unique  bool          `json:"unique,omitempty"`   // string entries get a per-goroutine unique path + expression
+	Writer  string        `json:"writer,omitempty"`   // file rewritten (content A/B, new mtime) during the run
+	Procs   int           `json:"procs,omitempty"`    // GOMAXPROCS
+	BaseTpl bool          `json:"base_tpl,omitempty"` // all goroutines use the single base template (Load/New from it)
 }
 
 type result struct {
@@ -192,6 +195,9 @@ type world struct {
 
 func newWorld(name string, c Case) (*world, error) {
 	p, ok := cat.ByName(name)
+	if name == "generated" && c.Gen != nil {
+		p, ok = c.Gen.Program("generated"), true
+	}
 	if !ok {
 		return nil, fmt.Errorf("unknown program %q", name)
 	}
@@ -461,7 +467,7 @@ func TestProp(t *testing.T) {
 	progs := cat.All()
 	i := 0
 	reps := run.Pick(3, 6)
-	rounds := run.Pick(1, 4)
+	rounds := run.Pick(1, 10)
 	for round := 0; round < rounds; round++ {
 		for pi, p := range progs {
 			second := progs[(pi+3+round)%len(progs)].Name
@@ -517,6 +523,12 @@ func TestProp(t *testing.T) {
 		}
 		return c
 	}, classify, check)
+	run.Rapid(t, rec, "generated", func(t *rapid.T) Case {
+		g := compose.Gen(t)
+		return Case{Gen: &g, Prog: "generated", N: rapid.SampledFrom([]int{4, 8, 16}).Draw(t, "n"), Reps: 2,
+			Entries: []string{"load", "file", "string"}, Shared: rapid.Bool().Draw(t, "shared"), BaseTpl: rapid.Bool().Draw(t, "base"),
+			Warm: rapid.Bool().Draw(t, "warm"), Procs: rapid.SampledFrom([]int{4, 16}).Draw(t, "procs")}
+	}, func(c Case) (bool, []string) { nt, cls := classify(c); return nt, append(cls, "generated-program") }, check)
 	rec.Note("max goroutines observed in flight at once in the last case: %d", atomic.LoadInt64(&raceSeen))
 }
 
